@@ -6,6 +6,9 @@
  * usage: linuxparse <ncases> <ops-file> <out-file> <stats-file>      (generate; seed = VERIF_SEED)
  *        linuxparse --replay <ops-file> <out-file>
  * ops:   CL <hex|->   CM <hex|->   CLX   CMX   RF <size0> <r1,r2,..|->       (see lean/Driver/LinuxParse.lean)
+ *        NI NU NQ NX MI HP CN MP AD AR: the numeric / meminfo / hugepages readers and the cgroup handling
+ *        (hwloc_linux__get_allowed_resources and its parts) on files written under a scratch fsroot
+ *        directory <out-file>.root, see lean/Driver/LinuxFs.lean
  *
  * A cpulist content with a run of >= 7 alphanumeric characters may hold a number >= 10^6: such cases run
  * in a forked child (the C code has signed overflow = UBSan abort for some of them, reported as `ub`).
@@ -56,7 +59,7 @@ static unsigned char *unhex(const char *h, size_t *len) {
   size_t n = strcmp(h, "-") ? strlen(h) / 2 : 0;
   unsigned char *b = malloc(n + 1);
   for (size_t i = 0; i < n; i++) b[i] = (unsigned char) (hexval(h[2 * i]) * 16 + hexval(h[2 * i + 1]));
-  *len = n; return b;
+  b[n] = 0; *len = n; return b;
 }
 static int write_scratch(const unsigned char *b, size_t n) {
   FILE *f = fopen(scratch, "wb"); if (!f) return -1;
@@ -82,6 +85,189 @@ static void do_parse(FILE *f, int list, const char *path, unsigned salt) {
   if (err < 0) fputs("fail", f);
   else { fputs("ok ", f); put_set(f, s); }
   hwloc_bitmap_free(s);
+}
+
+
+/* ---------------- scratch fsroot (ops NI .. AR) ---------------- */
+static char rootdir[1300]; static int root_fd = -1;
+static char *made[4096]; static unsigned nmade;           /* paths owned by the current op (files, hugepages entry directories), removed in reverse order */
+static char *stale[8192]; static unsigned nstale;         /* parent directories kept across ops (mkdir/rmdir are slow on the build disk); always empty between ops */
+static int fs_error;
+static void fs_track(const char *p) { if (nmade < 4096) made[nmade++] = strdup(p); else fs_error = 1; }
+static void fs_keep(const char *p) { if (nstale < 8192) stale[nstale++] = strdup(p); else fs_track(p); }
+static void fs_cleanup(void) {
+  while (nmade) { char *p = made[--nmade]; if (unlink(p) < 0) rmdir(p); free(p); }
+  fs_error = 0;
+}
+/* kept directories are invisible to the code under test (it only opens regular files by full name) except where this is called */
+static void fs_purge(void) { while (nstale) { char *p = stale[--nstale]; rmdir(p); free(p); } }
+static int fs_exists(const char *rel) { char full[1500]; struct stat sb; snprintf(full, sizeof full, "%s/%s", rootdir, rel); return stat(full, &sb) == 0; }
+/* create <root>/<path> (bytes, no NUL) and its parent directories; kind 0 = regular file with content, 1 = directory;
+ * own: directories created here belong to the op (removed after it) instead of being kept */
+static void fs_make2(const unsigned char *path, size_t pn, const unsigned char *c, size_t cn, int kind, int own) {
+  char full[6000]; size_t fl = strlen(rootdir);
+  size_t st[400], ln[400]; unsigned nc = 0;
+  if (memchr(path, 0, pn) || pn > 4000) { fs_error = 1; return; }
+  for (size_t i = 0; i < pn; ) {
+    while (i < pn && path[i] == '/') i++;
+    size_t j = i; while (j < pn && path[j] != '/') j++;
+    if (j > i && !(j - i == 1 && path[i] == '.')) {
+      if ((j - i == 2 && path[i] == '.' && path[i + 1] == '.') || j - i > 255 || nc >= 400) { fs_error = 1; return; }
+      st[nc] = i; ln[nc] = j - i; nc++;
+    }
+    i = j;
+  }
+  if (!nc) { if (kind == 0) fs_error = 1; return; }
+  memcpy(full, rootdir, fl);
+  for (unsigned k = 0; k < nc; k++) {
+    full[fl++] = '/'; memcpy(full + fl, path + st[k], ln[k]); fl += ln[k]; full[fl] = 0;
+    struct stat sb;
+    if (k + 1 < nc || kind == 1) {
+      if (mkdir(full, 0755) == 0) { if (own) fs_track(full); else fs_keep(full); }
+      else if (errno != EEXIST || stat(full, &sb) < 0 || !S_ISDIR(sb.st_mode)) { fs_error = 1; return; }
+    } else {
+      int fd = open(full, O_CREAT | O_EXCL | O_WRONLY, 0644);
+      if (fd < 0 && errno == EEXIST && nstale && stat(full, &sb) == 0 && S_ISDIR(sb.st_mode)) {      /* a kept (empty) directory is in the way */
+        fs_purge(); fs_make2(path, pn, c, cn, kind, own); return;
+      }
+      if (fd < 0) { if (errno != EEXIST || stat(full, &sb) < 0 || !S_ISREG(sb.st_mode)) fs_error = 1; return; }   /* first one wins */
+      fs_track(full);
+      if (cn && write(fd, c, cn) != (ssize_t) cn) fs_error = 1;
+      close(fd);
+    }
+  }
+}
+static void fs_make(const unsigned char *path, size_t pn, const unsigned char *c, size_t cn, int kind) { fs_make2(path, pn, c, cn, kind, 0); }
+/* <files> token: `-` or hexpath:hexcontent,... */
+static void fs_materialise(char *tok) {
+  if (!strcmp(tok, "-")) return;
+  char *sv = NULL;
+  for (char *it = strtok_r(tok, ",", &sv); it; it = strtok_r(NULL, ",", &sv)) {
+    char *colon = strchr(it, ':'); if (!colon) { fs_error = 1; return; }
+    *colon = 0;
+    size_t pn, cn; unsigned char *pb = unhex(it, &pn), *cb = unhex(colon + 1, &cn);
+    fs_make(pb, pn, cb, cn, 0);
+    free(pb); free(cb);
+  }
+}
+static void put_hex(FILE *f, const unsigned char *b, size_t n) { if (!n) fputc('-', f); else for (size_t i = 0; i < n; i++) fprintf(f, "%02x", b[i]); }
+static void put_setfull(FILE *f, hwloc_const_bitmap_t s) { if (hwloc_bitmap_isfull(s)) fputs("full", f); else put_set(f, s); }
+static int cmp_pt(const void *a, const void *b) {
+  const struct hwloc_memory_page_type_s *x = a, *y = b;
+  if (x->size != y->size) return x->size < y->size ? -1 : 1;
+  return x->count < y->count ? -1 : x->count > y->count;
+}
+
+/* returns 1 when the op was one of the fsroot ops */
+static int exec_fs_op(const char *op, char **save) {
+  if (!strcmp(op, "NI") || !strcmp(op, "NU") || !strcmp(op, "NQ")) {
+    char *h = strtok_r(NULL, " \n", save); size_t n; if (!h) { fputs("bad-op\n", fout); return 1; }
+    unsigned char *b = unhex(h, &n);
+    fs_make((const unsigned char *) "num", 3, b, n, 0); free(b);
+    if (fs_error) fputs("harness-io-error\n", fout);
+    else if (op[1] == 'I') { int v = 12345; if (hwloc_read_path_as_int("/num", &v, root_fd) < 0) fputs("fail\n", fout); else fprintf(fout, "ok %d\n", v); }
+    else if (op[1] == 'U') { unsigned v = 12345; if (hwloc_read_path_as_uint("/num", &v, root_fd) < 0) fputs("fail\n", fout); else fprintf(fout, "ok %u\n", v); }
+    else { uint64_t v = 12345; if (hwloc_read_path_as_uint64("/num", &v, root_fd) < 0) fputs("fail\n", fout); else fprintf(fout, "ok %llu\n", (unsigned long long) v); }
+    fs_cleanup(); return 1;
+  }
+  if (!strcmp(op, "NX")) {
+    int a = 1; unsigned b = 1; uint64_t c = 1;
+    fprintf(fout, "%s %s %s\n", hwloc_read_path_as_int("/num", &a, root_fd) < 0 ? "fail" : "ok", hwloc_read_path_as_uint("/num", &b, root_fd) < 0 ? "fail" : "ok",
+            hwloc_read_path_as_uint64("/num", &c, root_fd) < 0 ? "fail" : "ok");
+    return 1;
+  }
+  if (!strcmp(op, "MI")) {
+    char *h = strtok_r(NULL, " \n", save); if (!h) { fputs("bad-op\n", fout); return 1; }
+    if (strcmp(h, "x")) { size_t n; unsigned char *b = unhex(h, &n); fs_make((const unsigned char *) "meminfo", 7, b, n, 0); free(b); }
+    struct hwloc_linux_backend_data_s data; memset(&data, 0, sizeof data); data.root_fd = root_fd;
+    const uint64_t sentinel = 0xdeadbeefcafef00dULL;     /* low bits set: never a `number << 10` */
+    uint64_t mem = sentinel;
+    if (fs_error) fputs("harness-io-error\n", fout);
+    else { hwloc_parse_meminfo_info(&data, "/meminfo", &mem); if (mem == sentinel) fputs("keep\n", fout); else fprintf(fout, "ok %llu\n", (unsigned long long) mem); }
+    fs_cleanup(); return 1;
+  }
+  if (!strcmp(op, "HP")) {
+    char *d = strtok_r(NULL, " \n", save), *a = strtok_r(NULL, " \n", save), *r = strtok_r(NULL, " \n", save), *es = strtok_r(NULL, " \n", save);
+    if (!d || !a || !r || !es) { fputs("bad-op\n", fout); return 1; }
+    size_t dn; unsigned char *db = unhex(d, &dn);
+    unsigned alloc0 = (unsigned) strtoul(a, NULL, 10); uint64_t rem = strtoull(r, NULL, 10);
+    fs_make(db, dn, NULL, 0, 1);
+    { /* the directory listing is what the op says: nothing kept may sit inside */
+      char *dp = malloc(strlen(rootdir) + dn + 2); memcpy(dp, rootdir, strlen(rootdir)); dp[strlen(rootdir)] = '/'; memcpy(dp + strlen(rootdir) + 1, db, dn); dp[strlen(rootdir) + 1 + dn] = 0;
+      DIR *dd = memchr(db, 0, dn) ? NULL : opendir(dp); int n = 0; struct dirent *de;
+      if (dd) { while ((de = readdir(dd))) if (strcmp(de->d_name, ".") && strcmp(de->d_name, "..")) n++; closedir(dd); }
+      free(dp);
+      if (n) { fs_purge(); fs_make(db, dn, NULL, 0, 1); }
+    }
+    if (strcmp(es, "-")) {
+      char *sv = NULL;
+      for (char *it = strtok_r(es, ",", &sv); it; it = strtok_r(NULL, ",", &sv)) {
+        char *colon = strchr(it, ':'); if (!colon) { fs_error = 1; break; }
+        *colon = 0;
+        size_t nn, cn = 0; unsigned char *nb = unhex(it, &nn), *cb = strcmp(colon + 1, "x") ? unhex(colon + 1, &cn) : NULL;
+        unsigned char *pp = malloc(dn + nn + 32); size_t pl = 0;
+        memcpy(pp, db, dn); pl = dn; pp[pl++] = '/'; memcpy(pp + pl, nb, nn); pl += nn;
+        if (memchr(nb, '/', nn) || !nn) fs_error = 1;
+        fs_make2(pp, pl, NULL, 0, 1, 1);
+        if (cb) { memcpy(pp + pl, "/nr_hugepages", 13); fs_make2(pp, pl + 13, cb, cn, 0, 1); }
+        free(pp); free(nb); free(cb);
+      }
+    }
+    if (fs_error || !alloc0 || memchr(db, 0, dn)) fputs("harness-io-error\n", fout);
+    else {
+      struct hwloc_linux_backend_data_s data; memset(&data, 0, sizeof data); data.root_fd = root_fd;
+      struct hwloc_numanode_attr_s mem; memset(&mem, 0, sizeof mem);
+      mem.page_types = calloc(alloc0, sizeof(*mem.page_types)); mem.page_types_len = 1;
+      char *dirpath = malloc(dn + 1); memcpy(dirpath, db, dn); dirpath[dn] = 0;
+      hwloc_parse_hugepages_info(&data, dirpath, &mem, alloc0, &rem);
+      if (mem.page_types_len > 1) qsort(mem.page_types + 1, mem.page_types_len - 1, sizeof(*mem.page_types), cmp_pt);
+      fprintf(fout, "len=%u rem=%llu types=", mem.page_types_len, (unsigned long long) rem);
+      for (unsigned i = 1; i < mem.page_types_len; i++) fprintf(fout, "%llu:%llu;", (unsigned long long) mem.page_types[i].size, (unsigned long long) mem.page_types[i].count);
+      fputc('\n', fout);
+      free(mem.page_types); free(dirpath);
+    }
+    free(db); fs_cleanup(); return 1;
+  }
+  if (!strcmp(op, "CN")) {
+    char *fl = strtok_r(NULL, " \n", save); if (!fl) { fputs("bad-op\n", fout); return 1; }
+    fs_materialise(fl);
+    if (fs_error) fputs("harness-io-error\n", fout);
+    else { char *n = hwloc_read_linux_cgroup_name(root_fd, 0); if (!n) fputs("none\n", fout); else { fputs("ok ", fout); put_hex(fout, (unsigned char *) n, strlen(n)); fputc('\n', fout); free(n); } }
+    fs_cleanup(); return 1;
+  }
+  if (!strcmp(op, "MP") || !strcmp(op, "AR")) {
+    char *bs = strtok_r(NULL, " \n", save), *fl = strtok_r(NULL, " \n", save); if (!bs || !fl) { fputs("bad-op\n", fout); return 1; }
+    if (fs_exists("sys/fs/cgroup/cpuset.cpus.effective") || fs_exists("sys/fs/cgroup/cpuset/cpuset.cpus") || fs_exists("dev/cpuset/cpus")) fs_purge();   /* access() also accepts directories */
+    fs_materialise(fl);
+    if (fs_error || strtoul(bs, NULL, 10) != (unsigned long) hwloc_getpagesize() * 4) fputs("harness-io-error\n", fout);
+    else if (op[0] == 'M') {
+      enum hwloc_linux_cgroup_type_e t = (enum hwloc_linux_cgroup_type_e) 77; char *m = NULL;
+      hwloc_find_linux_cgroup_mntpnt(&t, &m, rootdir, root_fd);
+      if (!m) fputs("none\n", fout); else { fprintf(fout, "ok %d ", (int) t); put_hex(fout, (unsigned char *) m, strlen(m)); fputc('\n', fout); free(m); }
+    } else {
+      struct hwloc_topology *t = calloc(1, sizeof *t); char *name = (char *) 1;
+      t->pid = 0; t->allowed_cpuset = hwloc_bitmap_alloc_full(); t->allowed_nodeset = hwloc_bitmap_alloc_full();
+      hwloc_linux__get_allowed_resources(t, rootdir, root_fd, &name);
+      fputs("name=", fout); if (name) put_hex(fout, (unsigned char *) name, strlen(name)); else fputs("none", fout);
+      fputs(" cpus=", fout); put_setfull(fout, t->allowed_cpuset); fputs(" mems=", fout); put_setfull(fout, t->allowed_nodeset); fputc('\n', fout);
+      free(name); hwloc_bitmap_free(t->allowed_cpuset); hwloc_bitmap_free(t->allowed_nodeset); free(t);
+    }
+    fs_cleanup(); return 1;
+  }
+  if (!strcmp(op, "AD")) {
+    char *t = strtok_r(NULL, " \n", save), *m = strtok_r(NULL, " \n", save), *n = strtok_r(NULL, " \n", save), *a = strtok_r(NULL, " \n", save), *fl = strtok_r(NULL, " \n", save);
+    if (!t || !m || !n || !a || !fl || (strcmp(a, "c") && strcmp(a, "m")) || strlen(t) != 1 || t[0] < '0' || t[0] > '2') { fputs("bad-op\n", fout); return 1; }
+    size_t mn, nn; unsigned char *mb = unhex(m, &mn), *nb = unhex(n, &nn);
+    fs_materialise(fl);
+    if (fs_error || memchr(mb, 0, mn) || memchr(nb, 0, nn)) fputs("harness-io-error\n", fout);
+    else {
+      hwloc_bitmap_t s = mk_dst((unsigned) (mn * 7 + nn));
+      hwloc_admin_disable_set_from_cgroup(root_fd, (enum hwloc_linux_cgroup_type_e) (t[0] - '0'), (char *) mb, (char *) nb, a[0] == 'c' ? "cpus" : "mems", s);
+      put_setfull(fout, s); fputc('\n', fout); hwloc_bitmap_free(s);
+    }
+    free(mb); free(nb); fs_cleanup(); return 1;
+  }
+  return 0;
 }
 
 static unsigned long nops_done;
@@ -142,6 +328,7 @@ static void exec_line(char *line) {
       fprintf(fout, "ok %zu %zu%s\n", size, tot, good ? "" : " CONTENT-MISMATCH");
       free(buf);
     }
+  } else if (exec_fs_op(op, &save)) {
   } else fputs("bad-op\n", fout);
 }
 
@@ -218,9 +405,311 @@ static const char *bnames[B_N] = {"cl.valid", "cl.valid-wide", "cl.longfile", "c
        "rf.single-read", "rf.grow", "rf.short-read", "rf.error"};
 static unsigned long stats[B_N];
 
+
+/* ---------------- generators for the fsroot ops ---------------- */
+enum { B_NUM_VALID = 0, B_NUM_EDGE, B_NUM_MUT, B_NUM_MISSING, B_MI_VALID, B_MI_MUT, B_MI_LONG, B_HP, B_CN_CPUSET, B_CN_CGROUP, B_CN_LONGLINE, B_CN_MUT,
+       B_MP_STD, B_MP_V1, B_MP_V2, B_MP_CPUSET, B_MP_NONE, B_MP_LONGLINE, B_MP_MUT, B_AD, B_AD_TRUNC, B_AR, B_AR_MUT, B2_N };
+static const char *b2names[B2_N] = {"num.valid", "num.edge", "num.mutant", "num.missing", "meminfo.valid", "meminfo.mutant", "meminfo.beyond-buffer", "hugepages",
+       "cgname.cpuset-file", "cgname.cgroup-file", "cgname.long-line", "cgname.mutant", "mntpnt.standard", "mntpnt.cgroup1", "mntpnt.cgroup2", "mntpnt.cpuset",
+       "mntpnt.none", "mntpnt.long-line", "mntpnt.mutant", "admin.path", "admin.truncated-path", "allowed.composed", "allowed.mutant"};
+static unsigned long stats2[B2_N];
+
+struct gfile { unsigned char *p; size_t pn; unsigned char *c; size_t cn; };
+static struct gfile gf[40]; static unsigned ngf;
+static void gf_reset(void) { for (unsigned i = 0; i < ngf; i++) { free(gf[i].p); free(gf[i].c); } ngf = 0; }
+static void gf_add(const char *path, size_t pn, const unsigned char *c, size_t cn) {
+  if (ngf >= 40) return;
+  gf[ngf].p = malloc(pn + 1); memcpy(gf[ngf].p, path, pn); gf[ngf].pn = pn;
+  gf[ngf].c = malloc(cn + 1); if (cn) memcpy(gf[ngf].c, c, cn); gf[ngf].cn = cn; ngf++;
+}
+static void gf_adds(const char *path, const char *content) { gf_add(path, strlen(path), (const unsigned char *) content, strlen(content)); }
+static void gf_add_gb(const char *path) { gf_add(path, strlen(path), gb, gn); }
+static void fput_hex(const unsigned char *b, size_t n) { if (!n) fputc('-', fops); else for (size_t i = 0; i < n; i++) fprintf(fops, "%02x", b[i]); }
+static void gf_emit(void) {
+  if (!ngf) { fputc('-', fops); return; }
+  for (unsigned i = 0; i < ngf; i++) { if (i) fputc(',', fops); fput_hex(gf[i].p, gf[i].pn); fputc(':', fops); fput_hex(gf[i].c, gf[i].cn); }
+}
+static void no_dotdot(void) { for (size_t i = 0; i + 1 < gn; i++) if (gb[i] == '.' && gb[i + 1] == '.') gb[i + 1] = 'x'; }
+static const char mut_text[] = "0123456789 \t\n:,#\\/cpuset\0\0x-";
+static void mutate_text(unsigned times) {      /* like mutate(), with an alphabet that may hold NUL bytes */
+  for (unsigned k = 0; k < times && gn < sizeof gb - 100; k++) {
+    unsigned m = rng_below(6); size_t p = gn ? rng_below((unsigned) gn) : 0; unsigned char ch = (unsigned char) mut_text[rng_below(sizeof mut_text - 1)];
+    switch (m) {
+    case 0: if (gn) { memmove(gb + p, gb + p + 1, gn - p - 1); gn--; } break;
+    case 1: if (gn) { memmove(gb + p + 1, gb + p, gn - p); gn++; } break;
+    case 2: if (gn > 1 && p + 1 < gn) { unsigned char t = gb[p]; gb[p] = gb[p + 1]; gb[p + 1] = t; } break;
+    case 3: memmove(gb + p + 1, gb + p, gn - p); gb[p] = ch; gn++; break;
+    case 4: if (gn) gb[p] = ch; break;
+    case 5: if (gn) gn = p; break;
+    }
+  }
+  no_dotdot();
+}
+
+/* --- numbers --- */
+static void gen_num(void) {
+  static const char *edge[] = {"0\n", "1\n", "-1\n", "+7\n", " 42\n", "\t-42\n", "2147483647\n", "2147483648\n", "-2147483648\n", "-2147483649", "4294967295\n", "4294967296\n",
+    "9999999999\n", "99999999999\n", "12345678901234\n", "18446744073709551615\n", "18446744073709551616\n", "-18446744073709551615", "9223372036854775807\n", "9223372036854775808\n",
+    "-9223372036854775808\n", "-9223372036854775809\n", "184467440737095516150\n", "999999999999999999999\n", "1234567890123456789012\n", "0x10\n", "010\n", "1e3\n", "12abc\n", "abc\n", "\n", " ",
+    "--1\n", "+-1\n", "- 1\n", "00000000012\n", "000000000000000000000123\n", "4294967297\n", "-4294967295\n", "3000000000\n", "\v\f\r 5\n",
+    "000000000000000000123\n", "0000000000000000000123\n", "00000000000000000123\n", "0000000123\n", "000000123\n", "-000000012\n", "-0000000012\n", "+000000000000000000012\n", "123456789012345678901\n", "12345678901234567890\n"};
+  unsigned k = rng_below(100); const char *ops[] = {"NI", "NU", "NQ"}; const char *op = ops[rng_below(3)];
+  if (k < 3) { fputs("NX\n", fops); stats2[B_NUM_MISSING]++; return; }
+  if (k < 40) { unsigned long long v = rng_chance(50) ? rng_below(70000) : rng_chance(50) ? (rng_next() & 0xffffffffULL) : rng_next(); if (rng_chance(15)) g_putc('-');
+    char t[32]; snprintf(t, sizeof t, "%llu", v >> rng_below(40)); g_puts(t); if (!rng_chance(8)) g_putc('\n'); emit(op, "", &stats2[B_NUM_VALID]); return; }
+  if (k < 75) { g_puts(edge[rng_below(sizeof edge / sizeof *edge)]); emit(op, "", &stats2[B_NUM_EDGE]); return; }
+  g_puts(edge[rng_below(sizeof edge / sizeof *edge)]);
+  { unsigned t = 1 + rng_below(3); for (unsigned i = 0; i < t; i++) { unsigned m = rng_below(4); size_t p = gn ? rng_below((unsigned) gn) : 0; static const char al[] = "0123456789-+ \n\0x9";
+      if (m == 0 && gn) { memmove(gb + p, gb + p + 1, gn - p - 1); gn--; } else if (m == 1) { memmove(gb + p + 1, gb + p, gn - p); gb[p] = (unsigned char) al[rng_below(sizeof al - 1)]; gn++; }
+      else if (m == 2 && gn) gb[p] = (unsigned char) al[rng_below(sizeof al - 1)]; else if (gn) gn = p; } }
+  emit(op, "", &stats2[B_NUM_MUT]);
+}
+
+/* --- meminfo --- */
+static void gen_meminfo_text(int node) {
+  static const char *keys[] = {"MemFree", "MemUsed", "Active", "Inactive", "HugePages_Total", "HugePages_Free", "SwapTotal", "Buffers", "Cached", "MemAvailable", "XMemTotal", "MemTotal2", "memtotal"};
+  unsigned n = rng_below(9), at = rng_below(n + 1); int has = !rng_chance(12);
+  for (unsigned i = 0; i <= n; i++) {
+    char t[96];
+    if (i == at && has) {
+      unsigned long long v = rng_chance(60) ? rng_below(1u << 30) : rng_chance(50) ? rng_next() >> rng_below(30) : 18014398509481983ULL + rng_below(3);
+      if (node) snprintf(t, sizeof t, "Node %d MemTotal: %*llu kB\n", node - 1, (int) rng_below(12), v); else snprintf(t, sizeof t, "MemTotal: %*llu kB\n", (int) rng_below(12), v);
+      g_puts(t);
+      if (rng_chance(10)) { snprintf(t, sizeof t, "MemTotal: %u kB\n", rng_below(1000)); g_puts(t); }        /* a second key: the first one wins */
+    }
+    if (i < n) { const char *k = keys[rng_below(sizeof keys / sizeof *keys)];
+      if (node) snprintf(t, sizeof t, "Node %d %s: %8u kB\n", node - 1, k, rng_below(1u << 24)); else snprintf(t, sizeof t, "%s: %8u kB\n", k, rng_below(1u << 24)); g_puts(t); }
+  }
+}
+static void gen_meminfo(void) {
+  unsigned k = rng_below(100);
+  if (k < 3) { fputs("MI x\n", fops); stats2[B_MI_VALID]++; return; }
+  if (k < 45) { gen_meminfo_text(rng_chance(50) ? 1 + rng_below(20) : 0); emit("MI", "", &stats2[B_MI_VALID]); return; }
+  if (k < 60) {    /* the key near / across / beyond the 4095-byte read */
+    unsigned pad = 4095 - 30 + rng_below(40); while (gn + 20 < pad) g_puts("Filler:       1 kB\n"); while (gn < pad) g_putc('x');
+    g_puts("MemTotal: 123456 kB\n"); emit("MI", "", &stats2[B_MI_LONG]); return; }
+  if (k < 70) { static const char *w[] = {"MemTotal: ", "MemTotal:", "MemTotal:  \n", "MemTotal: -5 kB\n", "MemTotal: 18446744073709551615 kB\n", "MemTotal: 99999999999999999999999 kB\n", "MemTotal: 0x10 kB\n",
+      "MemTotal:\t7 kB\n", "MemTotal: MemTotal: 9 kB\n", "MemTotalMemTotal: 11 kB\n", "MemTotal: \n12 kB\n", "MemTotal: +13 kB\n", "", "\n", "MemTotal: 18014398509481984 kB\n", "MemTotal: 36028797018963967 kB\n"};
+    g_puts(w[rng_below(sizeof w / sizeof *w)]); emit("MI", "", &stats2[B_MI_MUT]); return; }
+  gen_meminfo_text(rng_chance(50) ? 1 + rng_below(20) : 0);
+  { unsigned t = 1 + rng_below(3); static const char al[] = "MemTotal: 0123456789\n\0k"; for (unsigned i = 0; i < t; i++) { unsigned m = rng_below(4); size_t p = gn ? rng_below((unsigned) gn) : 0;
+      if (m == 0 && gn) { memmove(gb + p, gb + p + 1, gn - p - 1); gn--; } else if (m == 1) { memmove(gb + p + 1, gb + p, gn - p); gb[p] = (unsigned char) al[rng_below(sizeof al - 1)]; gn++; }
+      else if (m == 2 && gn) gb[p] = (unsigned char) al[rng_below(sizeof al - 1)]; else if (gn) gn = p; } }
+  emit("MI", "", &stats2[B_MI_MUT]);
+}
+
+/* --- hugepages --- */
+static void gen_hugepages(void) {
+  static const char *dirs[] = {"/hp", "/sys/kernel/mm/hugepages", "/sys/devices/system/node/node12/hugepages", "/sys/devices/system/node/node1234567/hugepages/",
+    "/d/aaaaaaaaaaaaaaaaaaaaaaaaaaaaaaaaaaaaaaaaaaaaaaaaaaaaaaaaaaaaaaaaaaaaaaaaaaaaaaaaaaaaaaaaaaaaaaaaaaaaaa"};
+  static const char *names[] = {"hugepages-2048kB", "hugepages-1048576kB", "hugepages-64kB", "hugepages-32768kB", "hugepages-0x10kB", "hugepages-", "hugepages-abc", "hugepages--5kB", "hugepage-2048kB",
+    "other", "hugepages-18446744073709551615kB", "hugepages-18014398509481984kB", "hugepages-010kB", "hugepages- 7kB", "hugepages-16384kB", "hugepages-524288kB", "Hugepages-4kB", "hugepages-2048kBxxxxxxxxxxxxxxxxxxxxxxxxxxxxxxxxxxxxxxxxxxxxxxxxxxxxxxxxxxxxxxxx"};
+  static const char *conts[] = {"0\n", "12\n", "512\n", "0x20\n", "", "abc", "-1\n", "99999999999999999999999\n", "1\n", "7", "010\n", " 3\n", "4096\n",
+    "0000000000000000000000000000000000000000000000000000000000000000000012\n", "123456789012345678901234567890123456789012345678901234567890123456789\n"};
+  const char *d = dirs[rng_below(sizeof dirs / sizeof *dirs)];
+  char dbuf[200]; snprintf(dbuf, sizeof dbuf, "%s", d);
+  if (rng_chance(30)) { size_t l = strlen(dbuf); unsigned extra = rng_below(80); if (dbuf[l - 1] != '/') dbuf[l++] = '/'; for (unsigned i = 0; i < extra && l < 190; i++) dbuf[l++] = 'q'; dbuf[l] = 0; if (dbuf[l - 1] == '/') dbuf[l - 1] = 0; }
+  unsigned n = rng_below(7); int used[32] = {0};
+  fputs("HP ", fops); fput_hex((unsigned char *) dbuf, strlen(dbuf));
+  fprintf(fops, " %u %llu ", 1 + rng_below(4), (unsigned long long) (rng_chance(20) ? 0 : rng_chance(50) ? rng_next() : rng_next() >> 24));
+  char *eb = NULL; size_t el = 0; FILE *ef = open_memstream(&eb, &el); FILE *keep = fops; int first = 1;
+  fops = ef;
+  for (unsigned i = 0; i < n; i++) {
+    unsigned k = rng_below(sizeof names / sizeof *names); if (used[k]) continue; used[k] = 1;
+    char nm[300]; snprintf(nm, sizeof nm, "%s", names[k]);
+    if (rng_chance(10)) { size_t l = strlen(nm); unsigned extra = rng_below(100); for (unsigned j = 0; j < extra; j++) nm[l++] = 'y'; nm[l] = 0; }
+    if (!first) fputc(',', fops); first = 0;
+    fput_hex((unsigned char *) nm, strlen(nm)); fputc(':', fops);
+    if (rng_chance(12)) fputc('x', fops); else { const char *c = conts[rng_below(sizeof conts / sizeof *conts)]; fput_hex((const unsigned char *) c, strlen(c)); }
+  }
+  fclose(ef); fops = keep;
+  fputs(el ? eb : "-", fops); free(eb);
+  fputc('\n', fops); stats2[B_HP]++;
+}
+
+/* --- cgroup name --- */
+static void gen_cgroup_lines(int *longline) {
+  static const char *ln[] = {"12:cpuset:/grp1\n", "0::/user.slice/session-1.scope\n", "11:memory:/x\n", "3:cpu,cpuacct:/\n", "4:cpuset,cpu:/co\n", "5:cpu,cpuset:/y\n", "1:name=systemd:/z\n",
+    "cpuset:/q\n", ":cpuset:/w\n", "::\n", "0::", "7:cpuset:", "7:cpuset:\n", "no colon here\n", "\n", "2:cpuset:/a:b\n", "6:cpusets:/n\n", "8:cpuset/m\n", "9:blkio:/user.slice\n", "0::/\n", "10:cpuset:/\n",
+    "13:cpuset:/docker/0123456789abcdef0123456789abcdef0123456789abcdef0123456789abcdef\n", "0::/kubepods.slice/kubepods-burstable.slice/pod1\n", "14:CPUSET:/up\n"};
+  unsigned n = rng_below(7);
+  for (unsigned i = 0; i < n; i++) {
+    if (rng_chance(6)) {       /* a line longer than the 256-byte fgets buffer: its tail is seen as a line of its own */
+      unsigned pad = 230 + rng_below(50); g_puts("9:memory:/"); for (unsigned j = 0; j < pad; j++) g_putc('m'); g_puts(rng_chance(50) ? ":cpuset:/late\n" : "::/late2\n"); *longline = 1;
+    } else g_puts(ln[rng_below(sizeof ln / sizeof *ln)]);
+  }
+}
+static void gen_cpuset_file(void) {
+  static const char *cs[] = {"/\n", "/user.slice\n", "", "\n", "/a\nb\n", "/grp1", "/grp1\n", "/x/y\n"};
+  if (rng_chance(12)) { unsigned l = 120 + rng_below(15); g_putc('/'); for (unsigned j = 0; j < l; j++) g_putc('n'); g_putc('\n'); }
+  else g_puts(cs[rng_below(sizeof cs / sizeof *cs)]);
+}
+static void gen_cgname(void) {
+  int longline = 0, mut = 0, hascs = 0;
+  gf_reset();
+  if (rng_chance(35)) { gn = 0; gen_cpuset_file(); if (rng_chance(15)) { mutate_text(1); mut = 1; } gf_add_gb("/proc/self/cpuset"); hascs = 1; }
+  if (rng_chance(88)) { gn = 0; gen_cgroup_lines(&longline); if (rng_chance(25)) { mutate_text(1 + rng_below(3)); mut = 1; } gf_add_gb("/proc/self/cgroup"); }
+  fputs("CN ", fops); gf_emit(); fputc('\n', fops);
+  stats2[mut ? B_CN_MUT : longline ? B_CN_LONGLINE : hascs ? B_CN_CPUSET : B_CN_CGROUP]++;
+}
+
+/* --- mount points --- */
+static const char *mdirs[] = {"/cg2", "/cgv1/cpuset", "/sys/fs/cgroup/unified", "/my cg", "/t\tab", "/n\nl", "/b\\s", "/cs", "/sys/fs/cgroup/cpu,cpuset", "/dev/cpuset", "/sys/fs/cgroup",
+  "/Laaaaaaaaaaaaaaaaaaaaaaaaaaaaaaaaaaaaaaaaaaaaaaaaaaaaaaaaaaaaaaaaaaaaaaaaaaaaaaaaaaaaaaaaaaaaaaaaaaaaaaaaaaaaaaaaaaaaaaaaaaaaaaaaaaaaaaaaaaaaaaaa/bbbbbbbbbbbbbbbbbbbbbbbbbbbbbbbbbbbbbbbbbbbbbbbbbbbbbbbbbbbbbbbbbbbbbbbbbbbbbbbbbbbbbbbbbbbbbbbbbbbb"};
+#define NMDIRS (sizeof mdirs / sizeof *mdirs)
+static void pick_dir(char *out, size_t cap) {
+  unsigned k = rng_below(NMDIRS);
+  snprintf(out, cap, "%s", mdirs[k]);
+  if (k == NMDIRS - 1) { size_t l = strlen(out); unsigned extra = rng_below(22); for (unsigned i = 0; i < extra; i++) out[l++] = 'c'; out[l] = 0; }   /* 225 .. 246 bytes: around the 256-byte path buffers */
+}
+static void g_escaped(const char *s) {      /* as the kernel prints a field of /proc/mounts */
+  for (; *s; s++) { if (*s == ' ') g_puts("\\040"); else if (*s == '\t') g_puts("\\011"); else if (*s == '\n') g_puts("\\012"); else if (*s == '\\') g_puts(rng_chance(50) ? "\\134" : "\\\\"); else g_putc(*s); }
+}
+static void gf_add_trunc(const char *full, const char *content) {      /* the file the C will really open: the name cut at 255 bytes */
+  size_t l = strlen(full); if (l > 255) l = 255;
+  if (l && full[l - 1] != '/') gf_add(full, l, (const unsigned char *) content, strlen(content));
+}
+static const char *sep(void) { static const char *s[] = {" ", " ", " ", " ", "\t", "  ", " \t "}; return s[rng_below(7)]; }
+/* one line of /proc/mounts; *kind gets the bucket of the strongest line */
+static void gen_mount_line(int *kind) {
+  static const char *noise[] = {"proc /proc proc rw,nosuid,nodev,noexec,relatime 0 0\n", "sysfs /sys sysfs rw 0 0\n", "tmpfs /sys/fs/cgroup tmpfs ro,nosuid,nodev,noexec,mode=755 0 0\n",
+    "/dev/sda1 / ext4 rw,relatime 0 0\n", "cgroup /sys/fs/cgroup/memory cgroup rw,nosuid,nodev,noexec,relatime,memory 0 0\n", "# a comment cgroup /c cpuset rw 0 0\n", "\n", "   \n", " \t\n",
+    "cgroup\n", "cgroup /onlydir\n", "a b\tc\n", "systemd-1 /proc/sys/fs/binfmt_misc autofs rw,ignore 0 0\n", "none /x cpusetx rw 0 0\n", "none /x xcpuset rw 0 0\n", "cgroup /y cgroup3 rw,cpuset 0 0\n",
+    "cgroup /z Cgroup rw,cpuset 0 0\n", "cgroup /nl cgroup\n", "cgroup2 /nl2 cgroup2\n", "  # indented comment\n", "cgroup /e cgroup rw,cpuset\\040 0 0\n", "cgroup /e2 cg\\134roup rw,cpuset 0 0\n"};
+  static const char *v1opts[] = {"rw,nosuid,nodev,noexec,relatime,cpuset", "rw,cpuset,cpu,cpuacct", "cpuset", "rw,cpuset,noprefix", "noprefix,cpuset", "rw,noprefix", "rw,cpusets", "rw,xcpuset", "", "rw,,cpuset", "cpuset,",
+    "rw,cpuset,clone_children", "rw,cpu,cpuacct", "rw,cpuset\\040x", "rw\\054cpuset"};
+  static const char *ctrls[] = {"cpuset cpu io memory hugetlb pids rdma misc\n", "cpu io memory\n", "cpuset\n", "cpu cpuset", "cpusets cpu\n", "xcpuset\n", "cpu\ncpuset\n", "", " cpuset\n", "cpu  cpuset \n", "cpuset\tcpu\n", "\n"};
+  char d[400]; unsigned k = rng_below(100);
+  if (k < 40) { g_puts(noise[rng_below(sizeof noise / sizeof *noise)]); return; }
+  pick_dir(d, sizeof d);
+  if (rng_chance(8)) g_puts(sep());
+  if (k < 62) {             /* cgroup v1 */
+    g_puts("cgroup"); g_puts(sep()); g_escaped(d); g_puts(sep()); g_puts("cgroup"); g_puts(sep()); g_puts(v1opts[rng_below(sizeof v1opts / sizeof *v1opts)]); if (rng_chance(85)) { g_puts(sep()); g_puts("0 0"); }
+    if (*kind < 1) *kind = 1;
+  } else if (k < 86) {      /* cgroup v2: needs <dir>/cgroup.controllers */
+    g_puts("cgroup2"); g_puts(sep()); g_escaped(d); g_puts(sep()); g_puts("cgroup2"); g_puts(sep()); g_puts("rw,nosuid,nodev,noexec,relatime,nsdelegate"); if (rng_chance(85)) { g_puts(sep()); g_puts("0 0"); }
+    if (rng_chance(85)) { char f[500]; snprintf(f, sizeof f, "%s/cgroup.controllers", d);
+      if (rng_chance(8)) { char big[1200]; unsigned pad = 1000 + rng_below(40); memset(big, 'c', pad); big[pad] = 0; strcat(big, " cpuset cpu\n"); gf_add_trunc(f, big); }   /* `cpuset` around byte 1023 */
+      else gf_add_trunc(f, ctrls[rng_below(sizeof ctrls / sizeof *ctrls)]); }
+    if (*kind < 2) *kind = 2;
+  } else {                  /* cpuset pseudo file system */
+    g_puts(rng_chance(50) ? "none" : "cpuset"); g_puts(sep()); g_escaped(d); g_puts(sep()); g_puts("cpuset"); g_puts(sep()); g_puts("rw,relatime"); if (rng_chance(85)) { g_puts(sep()); g_puts("0 0"); }
+    if (*kind < 3) *kind = 3;
+  }
+  if (rng_chance(10)) g_puts(sep());
+  g_putc('\n');
+}
+/* builds the mounts content in gb and the cgroup.controllers files in gf; returns the bucket */
+static int gen_mounts_content(void) {
+  int kind = 0, bucket; unsigned n = rng_below(7);
+  gn = 0;
+  for (unsigned i = 0; i < n; i++) {
+    if (rng_chance(3)) {    /* a line beyond the 4-page getmntent buffer: cut there, the rest is forgotten */
+      unsigned pad = 16300 + rng_below(200); g_puts("cgroup /long cgroup rw,"); while (gn < pad) g_putc('o'); g_puts(",cpuset 0 0\n"); kind = 9;
+    } else gen_mount_line(&kind);
+  }
+  if (gn && rng_chance(10)) gn--;        /* no final newline */
+  bucket = kind == 9 ? B_MP_LONGLINE : kind == 1 ? B_MP_V1 : kind == 2 ? B_MP_V2 : kind == 3 ? B_MP_CPUSET : B_MP_NONE;
+  if (rng_chance(18)) { mutate_text(1 + rng_below(3)); bucket = B_MP_MUT; }
+  no_dotdot();
+  return bucket;
+}
+static int gen_std_mounts(void) {
+  int any = 0;
+  if (rng_chance(5)) { gf_adds("/sys/fs/cgroup/cpuset.cpus.effective", "0-3\n"); any = 1; }
+  if (rng_chance(5)) { gf_adds("/sys/fs/cgroup/cpuset/cpuset.cpus", "0-3\n"); any = 1; }
+  if (rng_chance(5)) { gf_adds("/dev/cpuset/cpus", "0-3\n"); any = 1; }
+  return any;
+}
+static void gen_mntpnt(void) {
+  gf_reset();
+  int std = gen_std_mounts(), bucket = B_MP_NONE;
+  if (rng_chance(95)) { bucket = gen_mounts_content(); gf_add_gb("/proc/mounts"); }
+  fprintf(fops, "MP %lu ", (unsigned long) hwloc_getpagesize() * 4); gf_emit(); fputc('\n', fops);
+  stats2[std ? B_MP_STD : bucket]++;
+}
+
+/* --- cpuset files --- */
+static const char *small_list(void) {
+  static const char *l[] = {"0-3\n", "0,2-5\n", "1\n", "0-63\n", "64-127\n", "0-1,4-5,8-9\n", "", "\n", "3-2\n", "x\n", "0-3", "5,\n", "2-\n", "0-3\0garbage", " 4\n", "0-255\n", "7,9\n"};
+  return l[rng_below(sizeof l / sizeof *l)];
+}
+static const char *cg_names[] = {"/grp1", "/user.slice/session-1.scope", "/", "", "/x/y", "/a b", "/docker/0123456789abcdef0123456789abcdef0123456789abcdef0123456789abcdef", "grp"};
+static void add_cpuset_files(const char *mnt, const char *name) {
+  static const char *suf[] = {"/cpuset.cpus.effective", "/cpuset.mems.effective", "/cpuset.cpus", "/cpuset.mems", "/cpus", "/mems"};
+  for (unsigned i = 0; i < 6; i++) if (rng_chance(70)) { char f[1200]; snprintf(f, sizeof f, "%s%s%s", mnt, name, suf[i]); gf_add_trunc(f, small_list()); }
+}
+static void gen_admin(void) {
+  char d[400]; pick_dir(d, sizeof d);
+  const char *name = cg_names[rng_below(sizeof cg_names / sizeof *cg_names)];
+  char nm[300]; snprintf(nm, sizeof nm, "%s", name);
+  if (rng_chance(15)) { size_t l = strlen(nm); unsigned extra = rng_below(40); nm[l++] = '/'; for (unsigned i = 0; i < extra; i++) nm[l++] = 'g'; nm[l] = 0; if (nm[l - 1] == '/') nm[l - 1] = 0; }
+  gf_reset(); add_cpuset_files(d, nm);
+  if (rng_chance(10)) add_cpuset_files("/cg2", "/grp1");
+  fprintf(fops, "AD %u ", rng_below(3)); fput_hex((unsigned char *) d, strlen(d)); fputc(' ', fops); fput_hex((unsigned char *) nm, strlen(nm));
+  fprintf(fops, " %c ", rng_chance(50) ? 'c' : 'm'); gf_emit(); fputc('\n', fops);
+  stats2[strlen(d) + strlen(nm) > 225 ? B_AD_TRUNC : B_AD]++;
+}
+/* a consistent container-like scenario: one matching mount line, one cgroup line, the cpuset files where the C will look */
+static void gen_allowed_directed(void) {
+  static const char *nms[] = {"/grp1", "/user.slice/session-1.scope", "/", "", "/x/y", "/kubepods.slice/pod1"};
+  char d[400]; pick_dir(d, sizeof d);
+  const char *name = nms[rng_below(sizeof nms / sizeof *nms)];
+  unsigned t = rng_below(3); int kind = 0;
+  gf_reset(); gn = 0;
+  for (unsigned i = rng_below(3); i; i--) { g_puts("proc /proc proc rw,nosuid,nodev,noexec,relatime 0 0\n"); }
+  if (t == 0) { g_puts("cgroup2 "); g_escaped(d); g_puts(" cgroup2 rw,nosuid,nodev,noexec,relatime,nsdelegate 0 0\n");
+    if (rng_chance(90)) { char f[500]; snprintf(f, sizeof f, "%s/cgroup.controllers", d); gf_add_trunc(f, rng_chance(85) ? "cpuset cpu io memory hugetlb pids rdma misc\n" : "cpu io memory\n"); } }
+  else if (t == 1) { g_puts("cgroup "); g_escaped(d); g_puts(rng_chance(85) ? " cgroup rw,nosuid,nodev,noexec,relatime,cpuset 0 0\n" : " cgroup rw,relatime,cpuset,noprefix 0 0\n"); }
+  else { g_puts("none "); g_escaped(d); g_puts(" cpuset rw,relatime 0 0\n"); }
+  if (rng_chance(30)) gen_mount_line(&kind);
+  no_dotdot();
+  gf_add_gb("/proc/mounts");
+  gn = 0;
+  if (rng_chance(20)) { g_puts(name); g_putc('\n'); gf_add_gb("/proc/self/cpuset"); }
+  else { if (rng_chance(50)) g_puts("11:memory:/user.slice\n"); if (t == 0 || rng_chance(20)) { g_puts("0::"); g_puts(name); g_putc('\n'); } else { g_puts("5:cpuset:"); g_puts(name); g_putc('\n'); } g_puts("1:name=systemd:/z\n"); gf_add_gb("/proc/self/cgroup"); }
+  add_cpuset_files(d, name);
+  fprintf(fops, "AR %lu ", (unsigned long) hwloc_getpagesize() * 4); gf_emit(); fputc('\n', fops);
+  stats2[B_AR]++;
+}
+static void gen_allowed(void) {
+  int longline = 0, mut = 0;
+  if (rng_chance(55)) { gen_allowed_directed(); return; }
+  gf_reset();
+  gen_std_mounts();
+  if (rng_chance(95)) { if (gen_mounts_content() == B_MP_MUT) mut = 1; gf_add_gb("/proc/mounts"); }
+  if (rng_chance(25)) { gn = 0; gen_cpuset_file(); gf_add_gb("/proc/self/cpuset"); }
+  if (rng_chance(85)) { gn = 0; gen_cgroup_lines(&longline); if (rng_chance(10)) { mutate_text(1); mut = 1; } gf_add_gb("/proc/self/cgroup"); }
+  /* cpuset files below every mount dir x a few cgroup names (whichever pair the C picks, there is a fair chance that files exist) */
+  for (unsigned i = 0; i < 4; i++) {
+    char d[400]; if (rng_chance(30)) snprintf(d, sizeof d, "%s", rng_chance(50) ? "/sys/fs/cgroup" : rng_chance(50) ? "/sys/fs/cgroup/cpuset" : "/dev/cpuset"); else pick_dir(d, sizeof d);
+    static const char *nms[] = {"/grp1", "/user.slice/session-1.scope", "/", "", "/x", "/y", "/w", "/late", "/a:b", "/co"};
+    add_cpuset_files(d, nms[rng_below(sizeof nms / sizeof *nms)]);
+  }
+  fprintf(fops, "AR %lu ", (unsigned long) hwloc_getpagesize() * 4); gf_emit(); fputc('\n', fops);
+  stats2[mut ? B_AR_MUT : B_AR]++;
+}
+
+static int lp_stream;     /* 0 old, 1 fs, 2 mix */
+static void gen_fs_case(void) {
+  unsigned k = rng_below(100);
+  gn = 0;
+  if (k < 22) gen_num();
+  else if (k < 34) gen_meminfo();
+  else if (k < 42) gen_hugepages();
+  else if (k < 57) gen_cgname();
+  else if (k < 77) gen_mntpnt();
+  else if (k < 87) gen_admin();
+  else gen_allowed();
+}
+
 static void gen_case(void) {
   unsigned k = rng_below(100);
   gn = 0;
+  /* two streams, selected by VERIF_LP_STREAM: `old` = the parser cases alone (the stream this harness produced before the
+   * fsroot ops existed, bit for bit), `fs` = the fsroot ops alone, anything else = a mix */
+  if (lp_stream == 1) { gen_fs_case(); return; }
+  if (lp_stream == 2 && rng_chance(45)) { gen_fs_case(); return; }
   if (k < 14) { gen_valid_list(8, 6, 12, !rng_chance(15)); emit("CL", "", &stats[B_CL_VALID]); }
   else if (k < 20) { gen_valid_list(40, 300, 700, 1); emit("CL", "", &stats[B_CL_VALID_BIG]); }
   else if (k < 22 && rng_chance(20)) { gen_valid_list(700 + rng_below(300), 5, 9, 1); emit("CL", "", &stats[B_CL_LONGFILE]); }
@@ -274,14 +763,23 @@ static void gen_case(void) {
   }
 }
 
+static int root_setup(const char *out) {
+  snprintf(rootdir, sizeof rootdir, "%s.root", out);
+  if (mkdir(rootdir, 0755) < 0 && errno != EEXIST) return -1;
+  root_fd = open(rootdir, O_RDONLY | O_DIRECTORY);
+  return root_fd < 0 ? -1 : 0;
+}
+static void root_teardown(void) { fs_cleanup(); fs_purge(); if (root_fd >= 0) close(root_fd); rmdir(rootdir); }
+
 int main(int argc, char **argv) {
   if (argc >= 4 && !strcmp(argv[1], "--replay")) {
     FILE *in = fopen(argv[2], "r"); fout = fopen(argv[3], "w"); fops = stderr;
     if (!in || !fout) return 2;
     snprintf(scratch, sizeof scratch, "%s.content", argv[3]);
+    if (root_setup(argv[3]) < 0) return 2;
     char *line = NULL; size_t cap = 0;
     while (getline(&line, &cap, in) > 0) { if (line[0] == '#' || line[0] == '\n') continue; exec_line(line); fflush(fout); }
-    free(line); fclose(in); fclose(fout); unlink(scratch);
+    free(line); fclose(in); fclose(fout); unlink(scratch); root_teardown();
     return 0;
   }
   if (argc < 5) { fprintf(stderr, "usage\n"); return 2; }
@@ -289,7 +787,9 @@ int main(int argc, char **argv) {
   fops = fopen(argv[2], "w+"); fout = fopen(argv[3], "w"); FILE *fst = fopen(argv[4], "w");
   if (!fops || !fout || !fst) return 2;
   snprintf(scratch, sizeof scratch, "%s.content", argv[3]);
+  if (root_setup(argv[3]) < 0) return 2;
   rng_seed(rng_seed_from_env());
+  { const char *st = getenv("VERIF_LP_STREAM"); lp_stream = !st ? 2 : !strcmp(st, "old") ? 0 : !strcmp(st, "fs") ? 1 : 2; }
   char *line = NULL; size_t cap = 0;
   for (unsigned long i = 0; i < n; i++) {
     long pos = ftell(fops);
@@ -301,6 +801,8 @@ int main(int argc, char **argv) {
   }
   free(line);
   for (int b = 0; b < B_N; b++) fprintf(fst, "%s %lu\n", bnames[b], stats[b]);
+  for (int b = 0; b < B2_N; b++) fprintf(fst, "%s %lu\n", b2names[b], stats2[b]);
+  gf_reset(); root_teardown();
   fclose(fops); fclose(fout); fclose(fst); unlink(scratch);
   return 0;
 }
